@@ -219,3 +219,28 @@ PROPS["C19"] = {
     "level_note": "Thread-level atomicity of ArrayQueue/Semaphore is trusted; connection life cycles returning all buffers are exercised by the limits suite (C14).",
     "assumptions": ["each ArrayQueue / Semaphore call is atomic"],
 }
+
+PROPS["C16"] = {
+    "theorems": ["Narwhal.Theorems.C16"],
+    "audit_files": ["Narwhal/Model/Client.lean"],
+    "expect_theorems": ["Narwhal.Client.inv_step", "Narwhal.Client.C16_window", "Narwhal.Client.C16_capacity_conserved",
+                        "Narwhal.Client.C16_completed_by_own_id", "Narwhal.Client.C16_result_stable",
+                        "Narwhal.Client.C16_timeout_always_ends", "Narwhal.Client.C16_ping_inert"],
+    "suites": {"client": {"kind": "lines", "nvh_suite": "client", "driver_suite": "client", "op_prefixes": ["req ", "reply ", "ping ", "advance "],
+                          "cases": {"quick": 80, "thorough": 2000}, "oracle_tags": ["C16"]}},
+    "rule": "the real generic Client (window 1/2/3/5, 100 ms timeout, virtual time) against a scripted peer: requests, replies in any order incl. "
+            "duplicates, late and unsolicited ones, PINGs carrying ids of in-flight requests, time advances across deadlines, then a full window of new "
+            "requests after everything ended; distinct = distinct observation strings",
+    "trusted_base": ["modelled, not verified: common/src/client.rs ClientConn (send_message, perform_request, reader_task)",
+                     "which waiter a released permit wakes is decided by async-lock/event-listener (observed NOT to be FIFO): grant decisions are "
+                     "oracle inputs that the model validates for admissibility (waiting request, free permit, deadline not passed)",
+                     "tokio timers; timer expiry at the very instant of an observation is avoided by the generator"],
+    "level_text": "Proved in Lean over every sequence of submissions, grants, peer frames (any permutation, duplication, omission, injection), PINGs and "
+                  "timeouts: permits + permit-holding requests = negotiated window (so at most max_inflight are outstanding and, once nobody holds a "
+                  "permit, the whole window is available again, after any run of timeouts); a request obtains a result only from a frame carrying its own "
+                  "id while it is in flight, and keeps it; a live request can always be ended by its timeout; a PING never completes a request. Tied by "
+                  "running the real engine under virtual time and a capacity oracle.",
+    "level_note": "Correlation ids of simultaneously live requests are assumed distinct (the engine's id counter wraps after 2^32-1 ids). The S2M/M2S "
+                  "wrappers' reply-to-result mapping belongs to C08/C09.",
+    "assumptions": ["distinct correlation ids among live requests"],
+}
